@@ -26,6 +26,7 @@ import Spade.Proofs.GeomLemmas
 import Spade.Generated.Leaf
 import Spade.Examples
 import Spade.Proofs.InsertInv
+import Spade.Proofs.LinkInv
 namespace Spade
 
 /-- the empty triangulation as a model state -/
@@ -81,6 +82,65 @@ theorem C02_insert_effect_on_model (s : St) (p : Pt) (d hint : Nat) (t : St) (v 
     St.IsUpdate s t v d ∨
     (v = s.nV ∧ ((s.nV = 0 ∧ St.Grows s t 1 0 0) ∨ (1 ≤ s.nV ∧ St.Bal s t 1))) :=
   St.insertM_effect s p d hint t v h
+
+/-! ### the link invariant over all insertion histories of the model
+
+`St.LInv` = the link part of the property ("next/prev/rev/face/origin links are mutually inverse",
+inner faces are triangles, origins chain along `next`, every inner face is anchored at one of its
+half-edges) — all conjuncts of `LinksOK` except "the two sides of an edge are different faces".  It
+is preserved by every DCEL operation of the insertion path (`Spade/Proofs/LinkInv/*`: `flip_cw`,
+`insert_into_triangle`, `split_edge`, `split_half_edge`, `create_new_face_adjacent_to_edge`,
+`create_single_face_between_edge_and_next`, `extend_line`, `split_edge_when_all_vertices_on_line`,
+the first two vertices) and by `legalize_edge` with any stack and fuel, hence by `insertM` and by
+every history.  The hull-extending and chain steps need `insertSideOK` (the boundary being closed
+is not a two-edge cycle, the chain end is an end): a geometric fact the link structure alone does
+not imply; the driver evaluates it on every insertion it compares. -/
+
+/-- a dumped state that passes the link and anchor checks has the invariant -/
+theorem C02_linv_of_checks (s : St) (h1 : s.LinksOK) (h2 : s.AnchorsOK) : s.LInv := by
+  obtain ⟨e1, e2, e3, e4, e5⟩ := h1
+  refine ⟨e1, e2, e3, e4, ?_, ?_⟩
+  · intro e he
+    obtain ⟨a1, a2, a3, a4, a5, a6, a7, a8, a9, a10, a11, _, _, _⟩ := e5 e he
+    exact ⟨a1, a2, a3, a4, a5, a6, a7, a8, a9, a10, a11⟩
+  · intro f h0 hf
+    have := h2.2.1 f hf
+    unfold St.fe
+    split at this
+    · rename_i e he
+      rw [he]; exact this
+    · omega
+
+/-- … and the invariant gives back every link conjunct of the spec but the last one -/
+theorem C02_links_of_linv (s : St) (h : s.LInv) (e : Nat) (he : e < s.nE) :
+    s.org e < s.nV ∧ s.nxt e < s.nE ∧ s.prv e < s.nE ∧ s.fc e < s.nF ∧ s.rv e = e ^^^ 1 ∧
+    s.prv (s.nxt e) = e ∧ s.nxt (s.prv e) = e ∧ s.fc (s.nxt e) = s.fc e ∧
+    s.org (s.nxt e) = s.dst e ∧ s.org e ≠ s.dst e ∧ (s.fc e ≠ 0 → s.nxt (s.nxt (s.nxt e)) = e) ∧
+    s.rv e < s.nE ∧ s.rv (s.rv e) = e :=
+  let E := h.edge e he
+  ⟨E.1, E.2.1, E.2.2.1, E.2.2.2.1, E.2.2.2.2.1, E.2.2.2.2.2.1, E.2.2.2.2.2.2.1, E.2.2.2.2.2.2.2.1,
+   E.2.2.2.2.2.2.2.2.1, E.2.2.2.2.2.2.2.2.2.1, E.2.2.2.2.2.2.2.2.2.2, h.rv_lt he, h.rv_rv he⟩
+
+/-- **one insertion of the model keeps the link invariant** -/
+theorem C02_links_invariant_insert (s t : St) (p : Pt) (d hint v : Nat) (hs : s.LInv)
+    (side : s.insertSideOK p d hint = true) (h : s.insertM p d hint = some (t, v)) : t.LInv :=
+  hs.insertM p d hint v side h
+
+/-- **every insertion history of the model, from the empty triangulation, keeps the link
+invariant** (any points, payloads, hints, any length) -/
+theorem C02_links_invariant_on_model (ops : List (Pt × Nat × Nat)) (t : St)
+    (side : emptyModel.insertAllSideOK ops = true)
+    (h : emptyModel.insertAllM ops = some t) : t.LInv :=
+  (St.LInv.of_no_edges emptyModel rfl rfl rfl rfl).insertAllM ops side h
+
+/-- `legalize_edge` keeps the link invariant from any state, for any start edge -/
+theorem C02_links_invariant_legalize (s : St) (hs : s.LInv) (e : Nat) (fully : Bool) :
+    (s.legalizeEdge e fully).LInv := hs.legalizeEdge e fully
+
+/-- non-vacuity: the side conditions hold along a concrete history that extends the hull, splits
+edges and inserts into faces -/
+example : emptyModel.insertAllSideOK [(⟨0,0⟩,0,0), (⟨2,0⟩,1,0), (⟨2,2⟩,2,0), (⟨0,2⟩,3,1), (⟨1,3⟩,4,2), (⟨1,1⟩,5,7), (⟨1,0⟩,9,0), (⟨1,2⟩,6,0)] = true := by
+  decide +kernel
 
 /-- non-vacuity: a concrete insertion history runs through the model and ends in a state that
 satisfies the whole spec -/
